@@ -13,6 +13,7 @@ import (
 
 	"verif/explore"
 	"verif/harness/c03"
+	"verif/harness/c10"
 	"verif/harness/hx"
 	"verif/runner"
 	"verif/vs"
@@ -256,6 +257,8 @@ func Property() runner.Property {
 				scenario(cfg{Name: "sub,sub,sub", Tree: []hx.Spec{sub(), sub(), sub()}, K: 2, MapOrder: true, Mode: "S2", Bound: 3}),
 			}
 			out = append(out, SiblingScenarios("C05", tier)...)
+			// a sibling that stops reading (event buffer modelled as 2): the others still receive everything
+			out = append(out, c10.HealthySiblingScenarios("C05")...)
 			out = append(out, c03.C05Controller(tier)...)
 			if tier == "thorough" {
 				out = append(out,
